@@ -865,7 +865,7 @@ theorem deleteA_succ_ok {σ : Schema} {n : Nat} {prog : List Bytes} {s s' : St} 
     s.as.contains id = true ∧ ∃ s3,
       (roundsOf σ s id).foldlM (roundA σ (deleteA σ n) prog id) s = .ok s3 ∧
       s3.as.contains id = true ∧
-      s' = { s3 with as := s3.as.erase id, minions := s3.minions.erase id } := by
+      s' = { s3 with as := s3.as.erase id, minions := s3.minions.erase id } ∧ σ.protect ≠ some id := by
   unfold deleteA at h
   split at h
   · next hc =>
@@ -873,7 +873,10 @@ theorem deleteA_succ_ok {σ : Schema} {n : Nat} {prog : List Bytes} {s s' : St} 
     split at h
     · next sF hF =>
       split at h
-      · next hcF => cases h; exact ⟨sF, hF, hcF, rfl⟩
+      · next hcF =>
+        split at h
+        · cases h
+        · next hv => cases h; exact ⟨sF, hF, hcF, rfl, hv⟩
       · cases h
     · cases h
   · cases h
@@ -1006,7 +1009,7 @@ theorem deleteA_inv (σ : Schema) : ∀ (n : Nat) (P : Bytes → Prop) (prog : L
   | zero => intro P prog s id s' _ _ h; simp [deleteA] at h
   | succ n ih =>
     intro P prog s id s' hI hprog h
-    obtain ⟨hc, s3, hF, hc3, rfl⟩ := deleteA_succ_ok h
+    obtain ⟨hc, s3, hF, hc3, rfl, _⟩ := deleteA_succ_ok h
     have hprog' : ∀ (Q : Bytes → Prop), (∀ x ∈ prog, Q x) → ∀ x ∈ mark prog id, plus Q id x := by
       intro Q hQ x hx
       rcases (mem_mark prog id x).1 hx with rfl | hx'
@@ -1167,6 +1170,12 @@ theorem inv_empty (σ : Schema) : Inv σ {} := by
   · intro t k; simp [Map.lookup]
   all_goals (intros; simp_all [Map.lookup, Targets, NonNull])
 
+/-- `GInv` depends on the schema only through `depNullable` -/
+theorem GInv.of_schema {σ σ' : Schema} {P : Bytes → Prop} {s : St} (h : GInv σ' P s)
+    (hn : σ'.depNullable = σ.depNullable) : GInv σ P s :=
+  ⟨h.things, h.minions, h.ownerT, h.bossT, h.depT, h.bossNN, fun hf => h.depNN (hn.trans hf), h.thingsK, h.minionsK,
+    h.nonEmpty, h.nonEmptyB⟩
+
 theorem apply_inv {σ : Schema} {s s' : St} (op : Op) (hI : Inv σ s) (h : apply σ s op = .ok s') : Inv σ s' := by
   cases op with
   | createB id => exact (createB_inv hI h).1
@@ -1177,6 +1186,10 @@ theorem apply_inv {σ : Schema} {s s' : St} (op : Op) (hI : Inv σ s) (h : apply
   | createC c id e x => exact (createC_inv hI h).1
   | updateC c id e x mo mb md mt mm mg => exact (updateC_inv hI h).1
   | deleteC id => exact (deleteA_inv σ _ none' [] s id s' hI (fun _ h => by cases h) h).1
+  | deleteAV id v =>
+    exact ((deleteA_inv (σ.withProtect v) _ none' [] s id s' (hI.of_schema rfl) (fun _ h => by cases h) h).1).of_schema rfl
+  | deleteBV id v =>
+    exact ((deleteB_inv (σ := σ.withProtect v) (hI.of_schema rfl) h).1).of_schema rfl
 
 theorem runTxFrom_inv {σ : Schema} {s0 : St} (h0 : Inv σ s0) :
     ∀ (ops : List Op) (i : Nat) (s : St), Inv σ s → Inv σ (runTxFrom σ s0 i s ops).1 := by
